@@ -14,7 +14,7 @@
        (c11_optional_fields_total), tied by the "cfg" correspondence family.
    Statements only. *)
 From Coq Require Import String.
-From CV Require Import Conc.Sched Conc.Gauge Conc.ConfigRead_Proofs Conc.Lockset Seq.Diag.
+From CV Require Import Base.Prelude Seq.RollingCounter Seq.TimedCheck Seq.Logic Seq.LogicCase Conc.Sched Conc.Gauge Conc.ConfigRead_Proofs Conc.Lockset Seq.Diag.
 
 (* (a) *)
 Theorem c11_old_or_new : forall tmo max fbmax fbdis pool0 s,
@@ -26,6 +26,30 @@ Proof. exact old_or_new_reachable. Qed.
 Example c11_old_or_new_example :
   installed 100%Z 5%Z 5%Z false [Caller RunOk FbNone GStart; Setter 0%Z (-1)%Z (-1)%Z true 0%nat] = [(100, 5, 5, false); (0, -1, -1, true)]%Z.
 Proof. reflexivity. Qed.
+
+(* (a), the built-in logic's own live settings (hystrix opener thresholds, consecutive-errors threshold,
+   closer sleep window / probe budget / required successes): after SetConfigThreadSafe the NEW values decide
+   the next question and nothing else moved -- no counter, window, streak or armed gate state *)
+Theorem c11_opener_live_setting_decides : forall pct vol h now,
+  ho_should_open now (ho_set pct vol h) =
+  let (att1, a) := rolling_sum_at (ho_n h) (ho_w h) (ho_start h) now (ho_att h) in
+  if (a =? 0)%Z || (a <? vol)%Z then (ho_set pct vol (ho_with h (ho_err h) att1), false)
+  else let (err1, e) := rolling_sum_at (ho_n h) (ho_w h) (ho_start h) now (ho_err h) in
+       (ho_set pct vol (ho_with h err1 att1), (pct * a <=? 100 * e)%Z).
+Proof. exact opener_set_decides. Qed.
+Theorem c11_opener_live_setting_moves_no_counter : forall pct vol h,
+  ho_err (ho_set pct vol h) = ho_err h /\ ho_att (ho_set pct vol h) = ho_att h /\
+  ho_n (ho_set pct vol h) = ho_n h /\ ho_w (ho_set pct vol h) = ho_w h /\ ho_start (ho_set pct vol h) = ho_start h.
+Proof. exact opener_set_moves_no_counter. Qed.
+Theorem c11_consec_live_setting_decides : forall thr c t now ans,
+  opener_should_open now ans (opener_set_consec thr (OpConsec c t)) = (OpConsec c thr, (thr <=? c)%Z).
+Proof. exact consec_set_decides. Qed.
+Theorem c11_closer_live_setting_decides : forall sleep half req t s n ans,
+  closer_should_close ans (closer_set sleep half req (ClHystrix t s n)) = (req <=? s)%Z /\
+  (forall now, let '(c1, b, a) := closer_allow now ans (closer_set sleep half req (ClHystrix t s n)) in
+               let '(t1, b', a') := tc_check now (tc_set_budget half (tc_set_sleep sleep t)) in
+               b = b' /\ a = match a' with Some d => [d] | None => [] end).
+Proof. exact closer_set_decides. Qed.
 
 (* (b) *)
 Theorem c11_lockset_sound : forall tbl, discipline_ok tbl = true ->
@@ -43,6 +67,10 @@ Proof. exact diag_total. Qed.
 
 Print Assumptions c11_old_or_new.
 Print Assumptions c11_old_or_new_example.
+Print Assumptions c11_opener_live_setting_decides.
+Print Assumptions c11_opener_live_setting_moves_no_counter.
+Print Assumptions c11_consec_live_setting_decides.
+Print Assumptions c11_closer_live_setting_decides.
 Print Assumptions c11_lockset_sound.
 Print Assumptions c11_lockorder_sound.
 Print Assumptions c11_optional_fields_total.
